@@ -19,5 +19,5 @@ OkAlter(r) ==
 OkBasic(r) == r.derive_det /\ r.encaps_det /\ r.sizes_ok /\ r.roundtrip_ok /\ r.decaps_ok
 OkLine(r) == CASE r.ev = "alter" -> OkAlter(r) [] r.ev = "basic" -> OkBasic(r) [] OTHER -> FALSE     \* "unmodelled": registry drift
 INSTANCE LinesTrace WITH Ok <- OkLine
-ASSUME TLCSet(1, 0) /\ TLCSet(2, {})
+ASSUME TLCSet(1, 0) /\ TLCSet(2, {}) /\ TLCSet(3, ndJsonDeserialize("trace.ndjson"))
 ====
